@@ -611,6 +611,75 @@ def correspond(run, items, b):
     return found, len(texts)
 
 
+def matcher_correspond(run, items, cap):
+    """the translated matcher of IsPreprocessorStatement (Gen/IsPreproc.ispreproc_run) on the recorded invocations: for
+    every distinct preprocessor statement the implementation matched, the model run in Coq on the statement's tokens
+    must answer (True, number of tokens consumed) or `not decided` (-1).  -> (found, n cases, n decided)"""
+    seen, cases = set(), []
+    for case, r in items:
+        if r["kind"] not in ("ok", "fatal"):
+            continue
+        for st in r["stmts"]:
+            if st["rule"] != "IsPreprocessorStatement":
+                continue
+            key = tuple((a, b) for a, b in st["toks"])
+            if key in seen or len(cases) >= cap:
+                continue
+            seen.add(key)
+            cases.append((key, case["name"]))
+    if not cases:
+        return False, 0, 0
+
+    def tok(ty, v):
+        return "tk %s %s" % (zl([ord(c) for c in ty]), "None" if v is None else "(Some %s)" % zl([ord(c) for c in v]))
+    os.makedirs(CASES_DIR, exist_ok=True)
+    found, decided = False, 0
+    chunks = [cases[i:i + 500] for i in range(0, len(cases), 500)]
+
+    def one(kc):
+        k, chunk = kc
+        path = os.path.join(CASES_DIR, "matcher_%d.v" % k)
+        with open(path, "w") as f:
+            f.write("From NV Require Import Model.Base Model.Lexer Model.Guard Gen.IsPreproc.\n")
+            f.write("Definition tk (ty : list Z) (v : option (list Z)) : token := mktok (zs ty) 0 0 (option_map zs v).\n")
+            f.write("Definition enc (r : option (bool * Z)) : Z := match r with None => -1 | Some (false, _) => -2 | Some (true, j) => j end.\n")
+            f.write("Eval vm_compute in (map (fun l => enc (ispreproc_run l)) [%s]).\n" % ";\n ".join(
+                "[" + "; ".join(tok(a, b) for a, b in key) + "]" for key, _ in chunk))
+        p = subprocess.run(["timeout", "600", "coqc", "-R", os.path.join(common.COQ, "theories"), "NV", path], cwd=CASES_DIR,
+                           capture_output=True, text=True)
+        for ext in (".vo", ".glob", ".vok", ".vos"):
+            try:
+                os.remove(path[:-2] + ext)
+            except OSError:
+                pass
+        try:
+            os.remove(os.path.join(CASES_DIR, ".matcher_%d.aux" % k))
+        except OSError:
+            pass
+        m = re.search(r"=\s*(\[.*\])\s*:\s*list", p.stdout, flags=re.S)
+        if p.returncode != 0 or not m:
+            return ("error", (p.stderr + p.stdout)[-500:])
+        try:
+            return list(ast.literal_eval(m.group(1).replace(";", ",")))
+        except (ValueError, SyntaxError):
+            return ("error", "unparsable: " + m.group(1)[:200])
+    with ThreadPoolExecutor(min(common.NPROC, len(chunks))) as ex:
+        outs = list(ex.map(one, enumerate(chunks)))
+    for chunk, out in zip(chunks, outs):
+        if isinstance(out, tuple):
+            found |= run.violation("correspondence-matcher-run-failed", {"coqc": out[1]})
+            continue
+        for (key, name), got in zip(chunk, out):
+            if got == -1:
+                continue
+            decided += 1
+            if got != len(key):
+                found |= run.violation("correspondence-ispreproc-matcher", {
+                    "name": name, "tokens": [list(x) for x in key], "implementation_jump": len(key), "model": got,
+                    "meaning": "model: jump, or -2 = returns (False, 0); the implementation matched the statement with this many tokens"})
+    return found, len(cases), decided
+
+
 def run(run, tier, seed, replay=None):
     b = common.build(["C14"], need_driver=False)
     run.build = b
@@ -670,6 +739,7 @@ def run(run, tier, seed, replay=None):
     extra = [{"name": n, "src": s_, "meta": None} for n, s_ in corr_extra(rnd)]
     extra_res = probe_many([(c["name"], c["src"]) for c in extra])
     ncorr = 0
+    matcher = {}
     if model_ok:
         items = list(zip(cases, results)) + list(zip(extra, extra_res))
         if tier == "quick":
@@ -678,6 +748,11 @@ def run(run, tier, seed, replay=None):
         found |= f
         nstm = sum(len(r["stmts"]) for _, r in items if r["kind"] in ("ok", "fatal"))
         run.count("correspondence: traces run in Coq and compared statement by statement", ncorr, 0)
+        if os.path.exists(os.path.join(common.COQ, "theories", "Gen", "IsPreproc.vo")):
+            f, nm, nd = matcher_correspond(run, items, 3000 if tier == "quick" else 40000)
+            found |= f
+            matcher = {"distinct_preprocessor_statements": nm, "decided_by_the_translated_matcher": nd}
+            run.count("correspondence: translated IsPreprocessorStatement matcher on recorded statements", nm, 0)
     else:
         nstm = 0
         run.notes.append("the guard model did not build in this run: the correspondence was skipped, the search ran")
@@ -697,7 +772,7 @@ def run(run, tier, seed, replay=None):
         extra={"distinct_base_names": len(names), "name_lengths": sorted(set(len(n) for n in names)),
                "verdicts": {"%s/%s" % k: n for k, n in sorted(tally.items())},
                "correct_guard_files_without_any_diagnostic": clean,
-               "correspondence_traces": ncorr, "correspondence_statements": nstm,
+               "correspondence_traces": ncorr, "correspondence_statements": nstm, "matcher_correspondence": matcher,
                "modelled": ["IsPreprocessorStatement (state effect)", "CheckPreprocessorProtection (generated)", "Registry.run_rules (history)", "File.type"],
                "exhaustive": False},
         assumptions=["Python's str.upper is taken character-wise on ASCII (table computed live, proved equal to the model for all ASCII strings)",
